@@ -280,7 +280,8 @@ StepRead(m, e) ==
         !.del = del0 + e.n,
         !.inmsg = ~(e.err = "eof"),
         \* (after its own callback's error the application may go on - e.g. Discard the message)
-        !.dead = e.err \notin {"nil", "eof", "callback"}]
+        \* (likewise after invalid UTF-8, when the scenario's caller is one that discards such a message)
+        !.dead = e.err \notin {"nil", "eof", "callback"} /\ ~(e.err = "invalid_utf8" /\ m.sc.discardInvalid)]
 
 StepDiscard(m, e) ==
     LET F == m.sc.frames
